@@ -9,6 +9,22 @@ import detsched as det
 from concurrent.futures import Future, Executor
 
 
+class YFuture(Future):
+    """A delegate future whose comparison is a scheduling point: library code that scans a shared container for
+    'its' future (`job.delegate_future == f`) can be preempted in the middle of the scan, as it can under the GIL.
+    Comparison stays identity."""
+
+    def __eq__(self, other):
+        det.switch("eq")
+        return self is other
+
+    def __ne__(self, other):
+        det.switch("eq")
+        return self is not other
+
+    __hash__ = Future.__hash__
+
+
 class Manual(Executor):
     """Environment: a delegate executor whose futures are completed by scenario ('env') code.
     submit/shutdown are visible operations."""
@@ -28,7 +44,7 @@ class Manual(Executor):
             raise RuntimeError("cannot schedule new futures after shutdown")
         idx = len(self.fs)
         with det.atomic():
-            f = Future()
+            f = YFuture()
             if det.S is not None:
                 det.S.name(f, "%s%d" % (self.prefix, idx))
             self.fs.append((f, fn, a, k))
